@@ -125,6 +125,15 @@ type Conn struct {
 	CloseErr error // returned by the server-side Close (the connection is closed all the same)
 	rdl, wdl time.Time
 	Yield    func() // called (outside the lock) at every Read/Write for schedule diversity
+	// OnWrite is called (outside the lock, before the bytes are taken) with the 1-based number of the server
+	// Write call and its size: something the embedding program does while that write is under way
+	OnWrite  func(k, n int)
+	onWriteK int
+	// idleExp counts read deadlines that have passed while the server was waiting for input the client had not
+	// sent (reset by every byte delivered or written); virtFire asks the waiting Read to let its short deadline
+	// pass now (virtual time: the client, waiting for the server to come to rest, sends nothing before it does)
+	idleExp  int
+	virtFire bool
 	addr     *Addr
 }
 
@@ -224,10 +233,14 @@ again:
 		if c.closed {
 			return 0, net.ErrClosed
 		}
-		if expired(c.rdl) {
+		if expired(c.rdl) || (c.virtFire && !c.rdl.IsZero()) {
 			c.blocked = false
+			c.virtFire = false
+			c.idleExp++
+			c.log(Event{Kind: "T", N: c.consumed})
 			return 0, os.ErrDeadlineExceeded
 		}
+		c.virtFire = false
 		if !c.blocked {
 			c.blocked = true
 			c.log(Event{Kind: "B", N: c.consumed})
@@ -259,6 +272,7 @@ again:
 		}
 		goto again
 	}
+	c.idleExp = 0
 	n := copy(p, seg)
 	if c.FailByteAt >= 0 && c.consumed+n > c.FailByteAt {
 		n = c.FailByteAt - c.consumed
@@ -307,6 +321,10 @@ func (c *Conn) Write(p []byte) (int, error) {
 	if c.SlowWrite > 0 {
 		time.Sleep(c.SlowWrite)
 	}
+	if c.OnWrite != nil {
+		c.onWriteK++
+		c.OnWrite(c.onWriteK, len(p))
+	}
 	c.mu.Lock()
 	defer c.mu.Unlock()
 	c.writes++
@@ -352,6 +370,7 @@ func (c *Conn) Write(p []byte) (int, error) {
 		return n, ErrInjected
 	}
 	c.out = append(c.out, p...)
+	c.idleExp = 0
 	if !c.NoLog {
 		c.log(Event{Kind: "W", N: len(p)})
 	}
@@ -535,7 +554,26 @@ func (c *Conn) Quiesce() (closed bool, ok bool) {
 	return c.waitFor(func() bool {
 		// once the client has half-closed (or aborted) the server cannot block for
 		// input any more: the only quiescent state left is "closed"
-		return c.closed || c.failed || c.syncWait || (c.blocked && len(c.in) == 0 && !c.inEOF && c.inErr == nil && (c.rdl.IsZero() || time.Until(c.rdl) > 2*time.Second))
+		if c.closed || c.failed || c.syncWait {
+			return true
+		}
+		if !(c.blocked && len(c.in) == 0 && !c.inEOF && c.inErr == nil) {
+			return false
+		}
+		if c.rdl.IsZero() || time.Until(c.rdl) > 2*time.Second {
+			return true
+		}
+		// the server waits with a short read deadline pending: it is about to do something. Once such a deadline
+		// has passed without the server sending anything (it came back to wait with another one: an idle poll),
+		// it is at rest; until then the deadline passes now rather than in a moment (virtual time)
+		if c.idleExp >= 1 {
+			return true
+		}
+		if !c.virtFire {
+			c.virtFire = true
+			c.cond.Broadcast()
+		}
+		return false
 	})
 }
 
@@ -613,6 +651,13 @@ type Stats struct {
 	Reads, Writes, Consumed, CloseCalls, AfterEnd int
 	Closed, Failed, Blocked                       bool
 	Pending                                       int
+}
+
+// FailWritesFromNow makes every server Write from the next one on fail (the client is gone).
+func (c *Conn) FailWritesFromNow() {
+	c.mu.Lock()
+	c.FailWriteAt = c.writes + 1
+	c.mu.Unlock()
 }
 
 // InterruptWrites arms the temporary write fault on a live connection: the at-th Write call from now
